@@ -155,6 +155,8 @@ type Exec struct {
 
 	oldState     *State
 	paramVals    map[string]Val
+	renamed      map[string][]*types.Var // contract name -> renamed variables now standing at its recorded position
+	renamedObj   map[*types.Var]string
 	boundNames   []string // names of the quantified variables currently being bound in a spec expression
 	closuresUsed map[*ClosureContract]bool
 	rangeOps     map[string]Val     // operands of the range loops currently executing, by index key
